@@ -57,7 +57,7 @@ def idx_for(rng, step, vlen, scal, mode):
     w = rng.choice([1, 8, 32, 64, 64, 128])
     forms = ["c", "c", "n"]
     if vlen: forms += ["nv", "nv"]
-    if vlen and not scal: forms += ["v", "vs"]
+    if vlen and not scal: forms += ["v", "vs", "m"]
     if mode == "wild":
         forms += ["z", "u", "o", "ep", "ea", "r"]
         if vlen: forms += ["zv", "uv", "ov", "epv"]
@@ -68,6 +68,13 @@ def idx_for(rng, step, vlen, scal, mode):
     if f == "nv": return "n:" + vt
     if f == "v": return "v:%d:%s" % (64 if w == 1 else w, ",".join(str(rng.choice([0, 1, 2])) for _ in range(vlen)))
     if f == "vs": return "v:%d:%s" % (64 if w == 1 else w, ",".join([str(v)] * vlen))
+    if f == "m":
+        # a literal vector with an element that is no integer literal (undef / poison), or a vector of booleans
+        if rng.random() < 0.35:
+            return "v:1:" + ",".join(str(rng.choice([0, 1])) for _ in range(vlen))
+        es = [str(rng.choice([0, 1, 2])) for _ in range(vlen)]
+        es[rng.randrange(vlen)] = rng.choice(["u", "o"])
+        return "m:%d:%s" % (64 if w == 1 else w, ",".join(es))
     if f == "z": return "z:i64"
     if f == "u": return "u:i64"
     if f == "o": return "o:i64"
